@@ -204,7 +204,7 @@ def primAlign (t : TyName) : Int := ((primInfo t).2.1 : Nat)
     `struct_decl`/`union_decl`) other than a type: the SIGFPE of the loops above, or one of the two located diagnostics -/
 inductive TyFail where
   | divByZero          -- `Fail.divByZero` of struct_decl / union_decl
-  | badAlign           -- attribute_list: error_tok(start, "alignment must be a power of two no larger than 2^28")
+  | badAlign           -- attribute_list `aligned(n)` / declspec `_Alignas(n)`: error_tok(start, "alignment must be a power of two no larger than 2^28")
   | bitfieldType       -- struct_members: error_tok(tok, "bit-field has non-integer type")
   deriving DecidableEq, Repr
 
@@ -257,15 +257,20 @@ mutual
       let l ← liftFail (unionLayout p a0 mems)
       pure (l.size, l.align)
   /-- `declspec`, the `_Alignas` arm, run over the specifiers of one declaration: `acc` is attr->align so far (starts 0);
-      each specifier does attr->align = MAX(attr->align, align) with align = typename(..)->align or const_expr(..) -/
+      each specifier does attr->align = MAX(attr->align, align) with align = typename(..)->align, or
+      `int64_t n = const_expr(..); if (n < 0 || n > (1 << 28) || (n & (n - 1))) error_tok(..); align = n;`
+      (guard regenerated from parse.c; the same message as for `aligned(n)`) -/
   def Aligns.eval : Aligns → Int → Except TyFail Int
     | .nil, acc => .ok acc
-    | .const n rest, acc => rest.eval (alignasCombine acc (alignasOfConst n))
+    | .const n rest, acc =>
+      if alignasConstBad n then .error .badAlign else rest.eval (alignasCombine acc (alignasOfConst n))
     | .type t rest, acc => do
       let (s, a) ← t.sizeAlign
       rest.eval (alignasCombine acc (alignasOfType s a))
   /-- `struct_members`: declspec (with its `_Alignas` specifiers), declarator, mem->align = attr.align ? attr.align :
-      mem->ty->align, and for a bit-field `if (!is_integer(mem->ty)) error_tok(tok, "bit-field has non-integer type")` -/
+      mem->ty->align, and for a bit-field `if (!is_integer(mem->ty)) error_tok(tok, "bit-field has non-integer type")`.
+      (The second guard of that arm, `if (mem->ty->is_atomic) error_tok(tok, "bit-field has atomic type")`, is pinned by
+      the translator (`bitfieldAtomicMsg`); type descriptions have no `_Atomic` qualifier, so it never fires here.) -/
   def Members.toMems : Members → Except TyFail (List Mem)
     | .nil => .ok []
     | .cons d as ty rest => do
